@@ -128,6 +128,10 @@ func (w *world) nestedCertificate(n *node) {
 	c := w.c
 	t := c.T
 	d := w.dex
+	if d == nil {
+		d = &dexWorld{locks: map[string]*lockRec{}, byOrder: map[string][]*lockRec{}, submitted: map[uint64]*lib.DexBatch{}}
+		w.dex = d
+	}
 	w.focus(n)
 	sm := n.ctl.FSM
 	h := sm.Height()
@@ -152,8 +156,13 @@ func (w *world) nestedCertificate(n *node) {
 		RewardRecipients: &lib.RewardRecipients{PaymentPercents: []*lib.PaymentPercents{{Address: proposer.a.addr, Percent: 100, ChainId: nestedId}}},
 		SlashRecipients:  &lib.SlashRecipients{},
 	}
-	res.Orders = w.orderInstructions(sm)
-	res.DexBatch = w.counterBatch(sm)
+	if d.on {
+		res.Orders = w.orderInstructions(sm)
+		res.DexBatch = w.counterBatch(sm)
+	}
+	if w.slash != nil {
+		res.SlashRecipients.DoubleSigners = w.slashList(sm)
+	}
 	hashIn := make([]byte, 16)
 	binary.BigEndian.PutUint64(hashIn, d.nestedHeight)
 	qc := &lib.QuorumCertificate{
@@ -170,7 +179,7 @@ func (w *world) nestedCertificate(n *node) {
 	rot := t.Intn(len(ms))
 	for i := range ms {
 		m := ms[(i+rot)%len(ms)]
-		if power >= thr && t.Chance(1, 2) {
+		if power >= thr && w.slash == nil && t.Chance(1, 2) {
 			break
 		}
 		signers = append(signers, m)
@@ -190,6 +199,9 @@ func (w *world) nestedCertificate(n *node) {
 		return
 	}
 	d.certSeq++
+	if w.slash != nil && len(res.SlashRecipients.DoubleSigners) > 0 {
+		w.slash.certs[string(bz)] = res.SlashRecipients.DoubleSigners
+	}
 	if res.DexBatch != nil {
 		d.submitted[h] = res.DexBatch
 	}
@@ -201,7 +213,11 @@ func (w *world) nestedCertificate(n *node) {
 	if b := res.DexBatch; b != nil {
 		db = fmt.Sprintf("receipts=%d orders=%d deposits=%d withdrawals=%d pool=%d", len(b.Receipts), len(b.Orders), len(b.Deposits), len(b.Withdrawals), b.PoolSize)
 	}
-	w.submit(&genTx{bz: bz, tx: tx.(*lib.Transaction), desc: fmt.Sprintf("certificate-results nested h%d rh%d lock=%d reset=%d close=%d dex[%s]", d.nestedHeight, rootHeight, nl, nr, nc, db), from: proposer.a})
+	sl := ""
+	for _, ds := range res.SlashRecipients.DoubleSigners {
+		sl += fmt.Sprintf(" slash{%x:%v}", ds.Id[:3], ds.Heights)
+	}
+	w.submit(&genTx{bz: bz, tx: tx.(*lib.Transaction), desc: fmt.Sprintf("certificate-results nested h%d rh%d lock=%d reset=%d close=%d dex[%s]%s", d.nestedHeight, rootHeight, nl, nr, nc, db, sl), from: proposer.a})
 	c.Fault("nested_certificate_results")
 }
 
